@@ -24,6 +24,7 @@ import (
 	"os"
 	"path/filepath"
 	"regexp"
+	"sort"
 	"strings"
 
 	"github.com/google/pprof/internal/plugin"
@@ -355,8 +356,13 @@ func identifyNumLabelUnits(p *profile.Profile, ui plugin.UI) map[string]string {
 
 	// Print errors for tags with multiple units associated with
 	// a single key.
-	for k, units := range ignoredUnits {
-		ui.PrintErr(fmt.Sprintf("For tag %s used unit %s, also encountered unit(s) %s", k, numLabelUnits[k], strings.Join(units, ", ")))
+	keys := make([]string, 0, len(ignoredUnits))
+	for k := range ignoredUnits {
+		keys = append(keys, k)
+	}
+	sort.Strings(keys)
+	for _, k := range keys {
+		ui.PrintErr(fmt.Sprintf("For tag %s used unit %s, also encountered unit(s) %s", k, numLabelUnits[k], strings.Join(ignoredUnits[k], ", ")))
 	}
 	return numLabelUnits
 }
